@@ -98,8 +98,9 @@ PROPS = {
                  'checked on whole programs by the trace correspondence; it is not lifted to a whole-machine theorem'],
     ),
     'C02': dict(
-        gen=['Kernel', 'Timing', 'Tracked', 'Lock'], props=['C02', 'C01', 'Skeletons'],
-        model=['Prim/KernelModel', 'Machine/Kernel', 'Machine/Step', 'Machine/Run', 'Judge/Judges'], harness='c02',
+        gen=['Kernel', 'Timing', 'Tracked', 'Lock'], props=['C02', 'C01', 'MachineFifo', 'Skeletons'],
+        model=['Prim/KernelModel', 'Machine/Kernel', 'Machine/Step', 'Machine/Run', 'Judge/Judges', 'Lemmas/PushBucket', 'Lemmas/KView',
+               'Lemmas/KStepFrames', 'Lemmas/KStep', 'Lemmas/PView', 'Lemmas/PStepFrames', 'Lemmas/PStep'], harness='c02',
         trusted_base=KERNEL_TB + MACHINE_TB + [
             'configuration independence of the implementation (process, hash seed, heap layout) is a CPython runtime fact: the model has no '
             'addresses; it is checked by running every scenario in several fresh processes, not proved',
